@@ -267,7 +267,12 @@ class BoomFalsy(Exception):
         return False
 
 
-BOOMS = [Boom, BoomRuntime, BoomLookup, BoomOS, BoomTimeout, BoomAssert, Boom, BoomFalsy]
+class BoomBase(BaseException):
+    """an application-level exception that does not derive from Exception (asyncio stores it in the task like any other;
+    only KeyboardInterrupt and SystemExit are propagated to the loop)"""
+
+
+BOOMS = [Boom, BoomRuntime, BoomLookup, BoomOS, BoomTimeout, BoomAssert, BoomBase, BoomFalsy]
 
 
 async def body(job):
@@ -519,7 +524,8 @@ def build(sc):
     def mk(node):
         name = node["name"]
         if node["kind"] == "job":
-            o = job_class(node)(name, node)
+            differs = any(f in BODY for f in first.get(name, {}))
+            o = job_class(dict(node, cls=None) if differs else node)(name, node)
         else:
             kids = [mk(c) for c in node["children"]]
             cls = (VP_PLAIN if node.get("pure") else VS_PLAIN) if sc.get("plain") else (VP if node.get("pure") else VS)
@@ -533,7 +539,10 @@ def build(sc):
         objs[name] = o
         # attributes as they are during the FIRST run (`sc["tree"]` describes the second, judged, run)
         for field, val in first.get(name, {}).items():
-            setattr(o, ATTR[field], val)
+            if field in BODY:
+                o.spec = dict(o.spec, **{field: val})
+            else:
+                setattr(o, ATTR[field], val)
         return o
     top = mk(sc["tree"])
 
@@ -593,6 +602,8 @@ def build(sc):
 
 
 ATTR = {"T": "timeout", "w": "jobs_window", "sdT": "shutdown_timeout", "crit": "critical", "forever": "forever"}
+# what the body of a job does (duration, extra loop iterations, raising) is read from `job.spec` when the body starts
+BODY = ("d", "k", "exc")
 
 
 def apply_between(sc, objs):
@@ -621,7 +632,10 @@ def apply_between(sc, objs):
                     pass
     for name, fields in between.get("attrs", {}).items():
         for field in fields:
-            setattr(objs[name], ATTR[field], specs[name].get(field))
+            if field in BODY:
+                objs[name].spec = specs[name]
+            else:
+                setattr(objs[name], ATTR[field], specs[name].get(field))
     for name in between.get("added_jobs", []):
         if name in parent:
             objs[parent[name]].add(objs[name])
@@ -703,9 +717,9 @@ def run(sc, linger=None, shutdown_again=True):
                 first_root = objs.get((sc.get("between") or {}).get("first_root"), top)
                 try:
                     await first_root.co_run()
-                except Hang:
+                except (Hang, GeneratorExit, KeyboardInterrupt):
                     raise
-                except Exception:                           # noqa
+                except BaseException:                       # noqa
                     pass
                 await asyncio.sleep(linger)
                 if sc.get("between"):
@@ -729,9 +743,9 @@ def run(sc, linger=None, shutdown_again=True):
                         res["r"] = ("cancelled", "-")
                 else:
                     res["r"] = ("ret", await top.co_run())
-            except Hang:
+            except (Hang, GeneratorExit, KeyboardInterrupt):
                 raise
-            except Exception as e:                          # noqa
+            except BaseException as e:                      # noqa
                 res["r"] = ("raise", exc_id(e), type(e).__name__)
             res["diag"] = {n: [o.failed_time_out(), o.failed_critical(), o.why()] for n, o in objs.items()
                            if isinstance(o, PureScheduler)}
